@@ -2158,6 +2158,9 @@ fn do_render_node<T: Write, D: TextDecorator>(
             TreeMapResult::PendingChildren {
                 children: items,
                 cons: Box::new(|renderer, _| {
+                    // Whatever follows the list starts on a new line rather
+                    // than continuing the last term's line.
+                    renderer.new_line()?;
                     pushed_style.unwind(renderer);
                     Ok(Some(None))
                 }),
